@@ -25,7 +25,7 @@ LIFE = {
     "C06": ("C06", 320, ()),
     "C07": ("C07", 480, ()),
     "C08": ("C08", 480, ()),
-    "C09": ("C09", 480, ()),
+    "C09": ("C09", 800, ()),
     "C20": ("C20", 320, ()),
 }
 
